@@ -9,5 +9,6 @@ pub mod env;
 pub mod gen;
 pub mod model;
 pub mod render;
+pub mod shrink;
 
 pub use hx_common::Rng;
